@@ -457,6 +457,11 @@ where
         if self.time.real() + self.dt.real() >= self.end.real() {
             self.dt = self.end - self.time;
             self.runge_kutta(1)?;
+            // time + (end - time) is not always end
+            self.time = self.end;
+            if let Some(last) = self.prev_values.back_mut() {
+                last.0 = self.end.real();
+            }
             return Ok((self.time.real(), self.prev_values.back().unwrap().1.clone()));
         }
 
